@@ -5,6 +5,8 @@ use noodles_csi::binning_index::index::reference_sequence::{Bin, Metadata};
 
 use crate::io::reader::num::{read_i32_le, read_u32_le};
 
+const MAX_PREALLOCATED_LEN: usize = 1 << 12;
+
 pub(super) fn read_bins<R>(reader: &mut R) -> io::Result<(IndexMap<usize, Bin>, Option<Metadata>)>
 where
     R: Read,
@@ -17,7 +19,9 @@ where
 
     let bin_count = read_bin_count(reader)?;
 
-    let mut bins = IndexMap::with_capacity(bin_count);
+    // The count is read from the input and is not yet validated, i.e., only a limited capacity is
+    // preallocated, and the collection grows as entries are read.
+    let mut bins = IndexMap::with_capacity(bin_count.min(MAX_PREALLOCATED_LEN));
     let mut metadata = None;
 
     for _ in 0..bin_count {
